@@ -406,22 +406,114 @@ var fwdFamily = []string{ //nolint:gochecknoglobals
 	"X-Forwarded-Method",
 }
 
-func fwdReq(c map[string]any) (any, error) {
+// the service instance a case is addressed to
+func fwdServerFor(c map[string]any) (*http.Server, string, error) {
 	fwd.mu.Lock()
 	defer fwd.mu.Unlock()
 
 	if !fwd.ready {
-		return nil, errors.New("fwd: setup case missing")
+		return nil, "", errors.New("fwd: setup case missing")
 	}
 
 	mode := getStr(c, "mode")
 	if mode != "decision" && mode != "proxy" {
-		return nil, errors.New("bad mode")
+		return nil, "", errors.New("bad mode")
 	}
 
 	_, configured := c["trusted"].([]any)
-	srv := fwdServer(mode, getStrs(c, "trusted"), configured)
 
+	return fwdServer(mode, getStrs(c, "trusted"), configured), mode, nil
+}
+
+func fwdReq(c map[string]any) (any, error) {
+	srv, mode, err := fwdServerFor(c)
+	if err != nil {
+		return nil, err
+	}
+
+	return fwdDo(srv, mode, c)
+}
+
+// a sequence of requests in one process, answers in order (state kept between requests becomes replayable)
+func fwdSeq(c map[string]any) (any, error) {
+	out := []any{}
+
+	for _, sub := range getArr(c, "cases") {
+		res, err := fwdReq(obj(sub))
+		if err != nil {
+			res = map[string]any{"harness_error": err.Error()}
+		}
+
+		out = append(out, res)
+	}
+
+	return out, nil
+}
+
+// several peers served IN PARALLEL by one service instance: every worker sends its request `rounds` times from its
+// own goroutine; per worker the distinct answers are reported (exactly one when requests do not interfere)
+func fwdPar(c map[string]any) (any, error) {
+	srv, mode, err := fwdServerFor(c)
+	if err != nil {
+		return nil, err
+	}
+
+	workers := getArr(c, "workers")
+	rounds := getInt(c, "rounds")
+	results := make([][]any, len(workers))
+	start := make(chan struct{})
+
+	var wg sync.WaitGroup
+
+	for w := range workers {
+		wg.Add(1)
+
+		go func(w int) {
+			defer wg.Done()
+
+			wc := obj(workers[w])
+			seen := map[string]any{}
+
+			<-start
+
+			for i := 0; i < rounds && len(seen) < 4; i++ {
+				res, err := fwdDo(srv, mode, wc)
+				if err != nil {
+					res = map[string]any{"harness_error": err.Error()}
+				}
+
+				raw, _ := json.Marshal(res)
+				if _, ok := seen[string(raw)]; !ok {
+					seen[string(raw)] = res
+				}
+			}
+
+			keys := make([]string, 0, len(seen))
+			for k := range seen {
+				keys = append(keys, k)
+			}
+
+			sort.Strings(keys)
+
+			for _, k := range keys {
+				results[w] = append(results[w], seen[k])
+			}
+		}(w)
+	}
+
+	close(start)
+	wg.Wait()
+
+	out := make([]any, len(results))
+	for i, r := range results {
+		out[i] = r
+	}
+
+	return out, nil
+}
+
+// one request through the given service instance (no shared harness state is touched: safe to call concurrently)
+func fwdDo(srv *http.Server, mode string, c map[string]any) (any, error) {
 	var (
 		ans  *fwdAnswer
 		skip any
@@ -576,6 +668,10 @@ func fwdRun(c map[string]any) (any, error) {
 		return fwdSetup(c)
 	case "req":
 		return fwdReq(c)
+	case "seq":
+		return fwdSeq(c)
+	case "par":
+		return fwdPar(c)
 	case "trust":
 		return fwdTrust(c)
 	case "uri":
